@@ -2,6 +2,7 @@ package gcsemu
 
 import (
 	"context"
+	"encoding/json"
 	"os"
 	"sync"
 	"time"
@@ -87,8 +88,7 @@ func (ms *memstore) Get(baseUrl HttpBaseUrl, bucket string, filename string) (*s
 func (ms *memstore) GetMeta(baseUrl HttpBaseUrl, bucket string, filename string) (*storage.Object, error) {
 	f := ms.find(bucket, filename)
 	if f != nil {
-		meta := f.meta
-		meta.Metadata = copyMetadata(meta.Metadata)
+		meta := cloneObject(f.meta)
 		InitMetaWithUrls(baseUrl, &meta, bucket, filename, uint64(len(f.data)))
 		return &meta, nil
 	}
@@ -151,8 +151,7 @@ func (ms *memstore) Copy(srcBucket string, srcFile string, dstBucket string, dst
 	}
 
 	// Copy with metadata
-	meta := src.meta
-	meta.Metadata = copyMetadata(meta.Metadata)
+	meta := cloneObject(src.meta)
 	meta.TimeCreated = "" // reset creation time on the dest file
 	err := ms.Add(dstBucket, dstFile, src.data, &meta)
 	if err != nil {
@@ -206,14 +205,16 @@ func (ms *memstore) Walk(ctx context.Context, bucket string, cb func(ctx context
 	return os.ErrNotExist
 }
 
-// copyMetadata returns a copy of the user metadata map so that stored objects never share it.
-func copyMetadata(m map[string]string) map[string]string {
-	if m == nil {
-		return nil
+// cloneObject returns a deep copy of an object resource, so that stored objects share nothing
+// (user metadata map, acl entries, owner, ...) with each other or with what callers are handed.
+func cloneObject(o storage.Object) storage.Object {
+	var ret storage.Object
+	buf, err := json.Marshal(&o)
+	if err == nil {
+		err = json.Unmarshal(buf, &ret)
 	}
-	ret := make(map[string]string, len(m))
-	for k, v := range m {
-		ret[k] = v
+	if err != nil {
+		panic(err) // should not fail
 	}
 	return ret
 }
